@@ -369,6 +369,25 @@ fn run_one(duo: &mut Duo, x: &X, table: &[(String, Ty, bool)], simplify_first: b
                 }
                 Verdict::Unknown => t.inconclusive.push(format!("{phys} => {pexpr}: solver undecided")),
                 Verdict::Sat => {
+                  // round 0: the solver's model.  If it is the recorded wrapping-negation corner (a negated column whose witness value is
+                  // the type minimum), ask again with the type minimum excluded: another defect of the same predicate must not hide behind it.
+                  for round in 0..2 {
+                    if round == 1 {
+                        for (n, ty, _) in table {
+                            if let Ty::Int { bits, signed: true } = ty {
+                                let clean: String = n.chars().map(|c| if c.is_ascii_alphanumeric() { c } else { '_' }).collect();
+                                duo.send(&format!("(assert (or n_{clean} (not (= v_{clean} {}))))\n", crate::enc::bv_lit(ty.min_max().0, *bits)));
+                            }
+                        }
+                        match duo.check() {
+                            Verdict::Sat => {}
+                            Verdict::Unsat => break,
+                            Verdict::Unknown => {
+                                t.inconclusive.push(format!("{phys} => {pexpr}: solver undecided (second model)"));
+                                break;
+                            }
+                        }
+                    }
                     let vals = duo.get_values(&enc.model_names());
                     let row = row_from_model(&enc, &vals);
                     // replay through the real prune()
@@ -394,17 +413,24 @@ fn run_one(duo: &mut Duo, x: &X, table: &[(String, Ty, bool)], simplify_first: b
                     };
                     let info = json!({"original": phys.to_string(), "rewritten": pexpr.to_string(), "row": row_json(&row),
                         "original_value": format!("predicate on the witness row: {}", matches), "rewritten_value": format!("prune() skips the container: {}", pruned),
-                        "signature": if negates_column(&phys) && wit.iter().any(|r| r.3.map(|v| v == r.1.min_max().0).unwrap_or(false)) {
+                        "signature": if negates_column(&phys)
+                            && wit.iter().any(|r| matches!(r.1, Ty::Int { signed: true, .. }) && phys.to_string().contains(&format!("(- {}@", r.0)) && r.3.map(|v| v == r.1.min_max().0).unwrap_or(false))
+                        {
                             // recorded finding, keyed by its trigger: unary minus on a column and a witness value at the type minimum
                             "prune: predicate negates a column; witness value is the type minimum (wrapping negation)".to_string()
                         } else {
                             format!("prune: {} => {}", crate::c04::shape(&phys.to_string()), crate::c04::shape(&pexpr.to_string()))
                         }});
+                    let known_corner = info["signature"].as_str().map(|s| s.starts_with("prune: predicate negates a column; witness value is the type minimum")).unwrap_or(false);
                     if pruned && matches {
                         t.violations.push(info);
                     } else {
                         t.inconclusive.push(format!("pruning model did not reproduce: {info}"));
                     }
+                    if !known_corner {
+                        break;
+                    }
+                  }
                 }
             }
         }
